@@ -250,7 +250,7 @@ def verus_unit(name, cfg, repo, build, tier):
     r['vacuity'] = None
     if r['status'] == 'ok' and not r['diags'] and (tier == 'thorough' or cfg.get('vacuity_quick')):
         vtext = vacuity_variant(text, blocks)
-        vpath = os.path.join(build, name + '.vacuity.rs')
+        vpath = os.path.join(build, name + '_vacuity.rs')
         open(vpath, 'w').write(vtext)
         vrun = run_verus(vpath, cfg.get('rlimit', 30))
         vp = parse_verus(vrun, vtext, blocks, linemap)
@@ -259,7 +259,7 @@ def verus_unit(name, cfg, repo, build, tier):
         missing = [blocks[i]['owner'] + '::' + blocks[i]['name'] for i in fnblocks if i not in failed_blocks]
         r['vacuity'] = dict(functions=len(fnblocks), reachable=len(fnblocks) - len(missing), vacuous=missing, wall=vrun['wall'])
         if vp['status'] != 'ok':
-            r['vacuity']['note'] = 'vacuity variant undecided: ' + vp['reason']
+            r['vacuity'] = dict(functions=len(fnblocks), reachable=None, vacuous=[], wall=vrun['wall'], note='vacuity variant undecided: ' + vp['reason'])
         elif missing:
             r.update(status='undecided', reason='vacuous contract (assert(false) verified) in: ' + ', '.join(missing))
     r['wall'] = time.time() - t0
